@@ -14,6 +14,7 @@ import (
 	"net"
 	"sort"
 	"strings"
+	"sync/atomic"
 	"time"
 
 	"github.com/brutella/hc/accessory"
@@ -124,6 +125,7 @@ func checkC10(c *Ctx) {
 		"non-trivial = history in which at least one EVENT was delivered. Model: exact multiset of (receiver, characteristic, value) per step")
 	c.Assume("events are attributed to a step by a following request/response on the same connection (hc writes notifications synchronously from the goroutine that changed the value)")
 	c10Wire(c)
+	c10DuringResponse(c)
 	n := c.Pick(32, 1500)
 	type res struct{ line, impl string }
 	results := make([]res, n)
@@ -536,4 +538,104 @@ func c10Wire(c *Ctx) {
 	for i := range lines {
 		c.Same("wire", ids[i], lines[i], model[i], impls[i])
 	}
+}
+
+// c10DuringResponse: the application changes a subscribed characteristic continuously while the subscriber fetches the
+// attribute database of a bridge (an answer of tens of kilobytes, written in many pieces). Every answer and every EVENT
+// must arrive as a well-formed message of its own: an event is never written into the middle of a response.
+func c10DuringResponse(c *Ctx) {
+	id := "during-response#0"
+	if c.Skip(id) {
+		return
+	}
+	r := c.CaseRng("during-response", 0)
+	bridge := accessory.NewBridge(accessory.Info{Name: "B"})
+	var lamps []*accessory.Lightbulb
+	var accs []*accessory.Accessory
+	for i := 0; i < 40; i++ {
+		l := accessory.NewLightbulb(accessory.Info{Name: fmt.Sprintf("Lamp %d", i), SerialNumber: strings.Repeat("s", 40)})
+		lamps = append(lamps, l)
+		accs = append(accs, l.Accessory)
+	}
+	acc, err := startE2E(c.ScratchDir(), "00102003", false, bridge.Accessory, accs...)
+	if err != nil {
+		c.Violate("transport does not start", id, nil, "started", err.Error())
+		return
+	}
+	defer acc.Stop()
+	ident := newRefIdentity(r, "ctrl-dr")
+	setup, _ := acc.Dial()
+	sr := refPairSetup(r, setup.Post(), "001-02-003", ident)
+	setup.Close()
+	if sr.ErrAt != "" {
+		c.Violate("reference controller cannot pair", id, nil, "paired", sr.ErrAt)
+		return
+	}
+	cl, err := acc.Dial()
+	if err != nil {
+		return
+	}
+	defer cl.Close()
+	vr := refPairVerify(r, cl.Post(), ident, sr.AccLTPK)
+	if vr.Shared == nil {
+		c.Violate("paired reference controller cannot verify", id, nil, "verified", vr.ErrAt)
+		return
+	}
+	cl.Upgrade(vr.Shared)
+	cl.timeout = 3 * time.Second
+	lamp := lamps[3]
+	body := fmt.Sprintf(`{"characteristics":[{"aid":%d,"iid":%d,"ev":true}]}`, lamp.Accessory.ID, lamp.Lightbulb.On.ID)
+	if m, err := cl.Do("PUT", "/characteristics", "application/hap+json", []byte(body)); err != nil || m.Status != 204 {
+		c.Violate("subscription request of a verified connection on an observable characteristic is not accepted", id, nil, "204", fmt.Sprint(err, m))
+		return
+	}
+	stop := make(chan struct{})
+	var toggles int64
+	go func() {
+		v := false
+		for {
+			select {
+			case <-stop:
+				return
+			default:
+			}
+			v = !v
+			lamp.Lightbulb.On.SetValue(v)
+			atomic.AddInt64(&toggles, 1)
+			time.Sleep(50 * time.Microsecond)
+		}
+	}()
+	n := c.Pick(40, 600)
+	for k := 0; k < n; k++ {
+		m, err := cl.Do("GET", "/accessories", "", nil)
+		var parsed struct {
+			Accessories []json.RawMessage `json:"accessories"`
+		}
+		if err != nil || m == nil || m.Status != 200 || json.Unmarshal(bytes.TrimSpace(m.Body), &parsed) != nil || len(parsed.Accessories) != 41 {
+			got := fmt.Sprint(err)
+			if m != nil {
+				got = fmt.Sprintf("status %d, %d body bytes: …%s", m.Status, len(m.Body), trunc(string(m.Body[max(0, len(m.Body)-120):]), 120))
+			}
+			close(stop)
+			c.Violate("an answer fetched while a subscribed characteristic changes does not arrive as a well-formed message (an EVENT was written into the middle of the response)", id,
+				map[string]interface{}{"request": k, "accessories": 41, "local_changes_so_far": atomic.LoadInt64(&toggles)}, "200 with the attribute database of 41 accessories", got)
+			return
+		}
+		for _, e := range cl.Events {
+			var eb struct {
+				Characteristics []struct {
+					Aid, Iid uint64
+				} `json:"characteristics"`
+			}
+			if json.Unmarshal(e.Body, &eb) != nil || len(eb.Characteristics) != 1 || eb.Characteristics[0].Aid != lamp.Accessory.ID {
+				close(stop)
+				c.Violate("EVENT message is not a single-characteristic HAP JSON body", id, k, "one characteristic", trunc(string(e.Body), 200))
+				return
+			}
+		}
+		cl.Events = nil
+	}
+	close(stop)
+	c.Extra("during_response_local_changes", atomic.LoadInt64(&toggles))
+	c.Count(id, true, "stream:during-response")
 }
